@@ -89,9 +89,10 @@ class Config:
             self.specs.append((kind, params, k, D))
         self.params = ['p%d' % j for j in range(npar)]
         self.rs = rng.randrange(10 ** 6)
+        self.reset_after_swap = self.pt and rng.random() < 0.3
 
     def describe(self):
-        return dict(pt=self.pt, ntemps=self.ntemps, swap_interval=self.si, seed=self.seed,
+        return dict(pt=self.pt, ntemps=self.ntemps, swap_interval=self.si, seed=self.seed, reset_after_swap=self.reset_after_swap,
                     proposals=[dict(kind=k, params=p, jump_interval=ki, duration=D) for k, p, ki, D in self.specs])
 
     def build(self, seed=None):
@@ -101,7 +102,8 @@ class Config:
         seed = self.seed if seed is None else seed
         if self.pt:
             betas = numpy.array(sorted([1.0] + [0.5] * (self.ntemps - 2) + [0.1], reverse=True))[:self.ntemps]
-            s = ParallelTemperedSampler(self.params, model, 1, betas=betas, swap_interval=self.si, proposals=props, seed=seed)
+            s = ParallelTemperedSampler(self.params, model, 1, betas=betas, swap_interval=self.si, proposals=props, seed=seed,
+                                        reset_after_swap=self.reset_after_swap)
         else:
             s = MetropolisHastingsSampler(self.params, model, 1, proposals=props, seed=seed)
         return s
@@ -165,9 +167,20 @@ def run_config(cfg, sched, out, terms, meta):
     watch = Watch(sampler, cfg)
     problems = []
     nontrivial = False
+    saved_state = [None]
     for op in sched:
         if op[0] == 'clear':
             sampler.clear()
+            continue
+        if op[0] == 'save':
+            if sampler.chains[0].iteration > 0:
+                saved_state[0] = pickle.loads(pickle.dumps(sampler.state))
+            continue
+        if op[0] == 'rewind':
+            # load an earlier state into the sampler that is running (no fresh objects)
+            if saved_state[0] is not None:
+                sampler.set_state(copy.deepcopy(saved_state[0]))
+                out.count('rewinds')
             continue
         if op[0] == 'resume':
             if sampler.chains[0].iteration == 0:
@@ -241,6 +254,9 @@ def run_config(cfg, sched, out, terms, meta):
 
 def gen_schedule(rng, thorough):
     ops = []
+    if rng.random() < 0.35:
+        # save early, run past the end of the slow phase, rewind the live sampler, run again
+        ops += [('run', rng.choice([1, 2, 3])), ('save',), ('run', rng.choice([12, 20, 31])), ('rewind',), ('run', rng.choice([6, 9]))]
     for _ in range(rng.randrange(2, 6)):
         r = rng.random()
         if r < 0.6:
